@@ -1,0 +1,22 @@
+//go:build verif
+
+// Contracts for the verification machinery under /verif (contract-based deductive
+// verification). This file is comment-only, is excluded from every normal build by the
+// "verif" build tag, and declares nothing. See /verif/DESIGN.md §4.
+
+package compile
+
+// a fresh configuration holding a clone of the function table, after the options ran
+//@ func PopulateConfig(options) (res, err)
+//@   requires forall j int :: 0 <= j && j < len(options) ==> options[j] != nil
+//@   ensures (res != nil) != (err != nil)
+//@   assigns *
+
+// ASSUMED (the ANTLR lexer and parser are a dependency): Tree is total; it returns a parse
+// tree exactly when no syntax error was reported, and that tree has the shape of the grammar
+// (see /verif/contracts/ext/grammar.spec); visiting a prog node yields a *VisitResult
+//@ func Tree(expr) (r, err)
+//@   trusted
+//@   ensures (r != nil) != (err != nil)
+//@   ensures err == nil ==> treeKind(r) == 1
+//@   assigns nothing
